@@ -17,6 +17,9 @@
      with a live one.  No combinator looks at the context itself (only FromIterator does, hence
      also the outer stream of ZFlatten), so over SScriptNC sources an expired context is noticed
      only by Flatten when it asks its outer stream for the next inner stream;
+   * SError e is stream.Error(err) (wrapped in the instrumented stream like every source): every
+     Next returns err - never an item, never End, never the context error (errorStream.Next does
+     not look at the context) -, Close does nothing;
    * SChan is stream.Chan over a closed channel.  With an expired context its `select` has two
      ready arms and Go picks either at random, so the harness never uses expired contexts with
      SChan sources; the model (arbitrarily) answers like FromIterator in that case;
@@ -54,10 +57,18 @@ Inductive ssrc :=
 | SSScript (evs : list sevent)
 | SSScriptNC (evs : list sevent). (* scripted source whose Next never looks at the context *)
 
+(* stream.Error(err): `func (s errorStream[T]) Next(ctx) (T, error) { var zero T; return zero,
+   s.err }` and an empty Close.  Its runtime state is the context-ignoring script that consists
+   of the one unretryable error: [script_next] answers a fatal event without consuming it, so
+   every Next returns Err e and leaves the state as it was, whatever the context - the Go method
+   word for word ([serror_next] below, the C07_stream_error theorems of Properties/C07.v). *)
+Definition error_script (e : Z) : list sevent := [EvFatal e].
+
 Definition ssrc_init (s : source) : ssrc :=
   match s with
   | SScript evs => SSScript evs
   | SScriptNC evs => SSScriptNC evs
+  | SError e => SSScriptNC (error_script e)
   | _ => SSIter (isrc_init s)
   end.
 
